@@ -42,6 +42,7 @@ static inline uint64_t vf_u64(void) { uint64_t v = nondet_u64(); vf_rec64 = v; r
 /* reachability witness: must come back FAILED, otherwise the harness is vacuous */
 # define VF_REACH(label)     __CPROVER_assert(0, "VF_REACH:" label)
 # define VF_OBSERVE(x)       ((void) 0)
+# define VF_SHOW(x)          ((void) 0)
 void vf_harness(void);
 # define VF_MAIN             void vf_harness(void)
 int main(void) { vf_harness(); return 0; }
@@ -82,11 +83,16 @@ static inline void vf_observe(uint64_t x)
 # define VF_ASSUME(c) do { if (!(c)) { \
         fprintf(stdout, "VF_ASSUME_FAILED %s:%d %s\n", __FILE__, __LINE__, #c); \
         fflush(stdout); _Exit(77); } } while (0)
+/* like CBMC, a failed assertion does not stop the run: all labels that fail
+   on this tape are printed, the exit status is 1 at the end */
+static int vf_failed;
 # define VF_ASSERT(c, label) do { if (!(c)) { \
         fprintf(stdout, "VF_ASSERT_FAILED %s\n", label); \
-        fflush(stdout); _Exit(1); } } while (0)
+        fflush(stdout); vf_failed = 1; } } while (0)
 # define VF_REACH(label) do { fprintf(stdout, "VF_REACHED %s\n", label); } while (0)
 # define VF_OBSERVE(x) vf_observe((uint64_t) (x))
+/* debugging aid for replays: print a scalar */
+# define VF_SHOW(x) fprintf(stdout, "VF_SHOW %s = %lld (0x%llx)\n", #x, (long long) (x), (unsigned long long) (x))
 
 void vf_harness(void);
 # define VF_MAIN void vf_harness(void)
@@ -115,7 +121,7 @@ int main(int argc, char **argv)
     vf_harness();
     fprintf(stdout, "VF_DONE digest=%016llx draws=%zu\n",
         (unsigned long long) vf_digest, vf_tape_pos);
-    return 0;
+    return vf_failed;
 }
 #endif
 
